@@ -147,6 +147,11 @@ def make_pool(tier, rng):
     # functions (only at top level of an operand, or one level down)
     f1 = add(lambda n: [A.Declare(V(n), A.FuncE([], False, [A.Return(I(1))]))], Fn)
     add(lambda n: [A.Declare(V(n), V(f1))], Fn, ident=f1)
+    # the same function value after a trip through a container (entry of an object literal, list item, shorthand, spread)
+    add(lambda n: [A.Declare(V(n), A.Prop(A.obj(("on_click", V(f1))), "on_click", False))], Fn, ident=f1)
+    add(lambda n: [A.Declare(V(n), A.Index(A.lst(I(0), V(f1)), I(1)))], Fn, ident=f1)
+    add(lambda n: [A.Declare(V(n), A.Index(A.ObjectE([A.Single(V(f1), False, False)]), S(f1)))], Fn, ident=f1)
+    add(lambda n: [A.Declare(V(n), A.Prop(A.ObjectE([A.Single(A.obj(("h", V(f1))), True, False)]), "h", False))], Fn, ident=f1)
     add(lambda n: [A.Declare(V(n), A.FuncE([], False, [A.Return(I(1))]))], Fn)
     add(lambda n: [A.Declare(V(n), V("print"))], "builtin")
     add(lambda n: [A.Declare(V(n), A.Index(A.lst(V("print")), I(0)))], "builtin")       # builtins are not cells: comparing two `print`s reaches a function pair
@@ -437,6 +442,23 @@ def run(rep, tier):
     elif o.died or o.code != 0 or o.out != want:
         rep.violation("C10/cyclic-self", "a container that reaches itself, compared with itself (same container on both sides): expected true for ==, false for != everywhere; got exit %s stdout %r stderr %r" % (
             o.code, o.out.decode("utf-8", "replace").split(), o.err[:160]), {"src": cyc_src, "oracle": "x == x for the same container; === implies =="})
+    # the answer follows the contents as they are now: compare, mutate one side in place, compare the same pair again
+    cmc_src = ('a := [1, [2], {"k": 3}]\nb := [1, [2], {"k": 3}]\nprint(a == b)\nprint(a == b)\na[0] = 9\nprint(a == b)\nprint(a != b)\nprint(b == a)\na[0] = 1\nprint(a == b)\n'
+               'a[1][0] = 7\nprint(a == b)\nprint(b == a)\nb[1][0] = 7\nprint(a == b)\na[2].k = 0\nprint(a == b)\nprint(a != b)\nb[2]["k"] = 0\nprint(b == a)\n'
+               'p := {"x": [1], "y": "s"}\nq := {"y": "s", "x": [1]}\nprint(p == q)\np.x += [2]\nprint(p == q)\nprint(q == p)\nq.x = [1, 2]\nprint(p == q)\np.z = null\nprint(p == q)\nprint(p != q)\n'
+               'fn same(u, v) {\n    return u == v\n}\ns := [0]\nt := [0]\nprint(same(s, t))\ns[0] = 1\nprint(same(s, t))\nprint(same(t, s))\nt[0] = 1\nprint(same(s, t))\n'
+               'for [i, _] in [0, 0, 0] {\n    print(s == t)\n    s += [i]\n    print(s == t)\n    t += [i]\n}\n')
+    o = core.run_one({"src": cmc_src})
+    rep.evaluations += 1
+    rep.process_runs += 1
+    rep.tally("single_pairs", "compare-mutate-compare")
+    T_, F_ = b"true\n", b"false\n"
+    want = T_ + T_ + F_ + T_ + F_ + T_ + F_ + F_ + T_ + F_ + T_ + T_ + T_ + F_ + F_ + T_ + F_ + T_ + T_ + F_ + F_ + T_ + (T_ + F_) * 3
+    if o.timeout:
+        rep.note_inconclusive("compare-mutate-compare: timeout")
+    elif o.died or o.code != 0 or o.out != want:
+        rep.violation("C10/compare-mutate-compare", "== must follow the current contents of its operands: expected %s, got exit %s stdout %s stderr %r" % (
+            want.split(), o.code, o.out.split(), o.err[:160]), {"src": cmc_src, "oracle": "== depends only on shape and contents at the time of the comparison"})
     # operands written literally next to the operator (`x == []`, `{} != ""`): the same table as for variables
     from . import c16
     from .. import harness
